@@ -23,7 +23,13 @@ class BaseParser(ABC):
         pass
 
     def find_file_locations(self) -> List[Path]:
-        return list(Path(self.parent_directory).rglob(self.file_type.value))
+        # sorted: the first store found wins, so the order must not depend on directory enumeration;
+        # symlinks are skipped like in code_directory.files_for_directory (they may point outside the project)
+        return sorted(
+            path
+            for path in Path(self.parent_directory).rglob(self.file_type.value)
+            if not path.is_symlink()
+        )
 
     def parse(self) -> list[PackageStore]:
         """
